@@ -128,7 +128,21 @@ VCHECK("c11.carbons", 1400)
         if (deco == 6)
             fwd += QStringLiteral("<forwarded xmlns='urn:xmpp:forward:0'><message xmlns='jabber:client' from='second@forwarded.example'><body>SECONDFORWARDED</body></message></forwarded>");
         QString wrapper = QStringLiteral("<%1 xmlns='%2'>%3</%1>").arg(sentKind ? QStringLiteral("sent") : QStringLiteral("received"), wrapperNs, fwd);
-        QString outer = QStringLiteral("<message to=\"%1\" type='chat'").arg(ownFull.toHtmlEscaped());
+        // the outer addressee is under the sender's control as well
+        QString outerTo = ownFull;
+        bool toAbsent = false;
+        std::string toKind = "own-full";
+        switch (t.weighted({ 6, 1, 1, 2, 2, 1 })) {
+        case 1: outerTo = ownBare; toKind = "own-bare"; break;
+        case 2: toAbsent = true; toKind = "absent"; break;
+        case 3: outerTo = fromAbsent ? ownFull : from; toKind = "same-as-from"; break;
+        case 4: outerTo = fromAbsent ? ownFull : from.section(u'/', 0, 0) + QStringLiteral("/x"); toKind = "bare-of-from-plus-resource"; break;
+        case 5: outerTo = QStringLiteral("mallory@evil.example/x"); toKind = "stranger"; break;
+        default: break;
+        }
+        QString outer = QStringLiteral("<message type='chat'");
+        if (!toAbsent)
+            outer += QStringLiteral(" to=\"%1\"").arg(outerTo.toHtmlEscaped());
         if (!fromAbsent)
             outer += QStringLiteral(" from=\"%1\"").arg(from.toHtmlEscaped());
         outer += u'>';
@@ -140,7 +154,7 @@ VCHECK("c11.carbons", 1400)
         if (deco == 4)
             outer += QStringLiteral("<body>OUTERBODY</body><thread>outer-thread</thread>");
         outer += QStringLiteral("</message>");
-        history += " | deliver(from=" + fromKind + "," + (sentKind ? "sent" : "received") + (rightNs ? "" : ",wrong-ns") + ",deco=" + std::to_string(deco) + ",exts={" + g.desc + "})";
+        history += " | deliver(from=" + fromKind + ",to=" + toKind + "," + (sentKind ? "sent" : "received") + (rightNs ? "" : ",wrong-ns") + ",deco=" + std::to_string(deco) + ",exts={" + g.desc + "})";
 
         obs = Observed();
         rec->seen.clear();
@@ -148,6 +162,7 @@ VCHECK("c11.carbons", 1400)
         client.pump(1);
         obs.handler = rec->seen;
         c.label("from:" + fromKind);
+        c.label("to:" + toKind);
         c.label(authorised && rightNs ? "authorised" : "not-authorised");
 
         const bool shouldUnwrap = authorised && rightNs;
